@@ -76,6 +76,11 @@ TTypes(m, v) ==
     [] m = "Close"       -> <<"Tclunk">>
     [] m \in Local       -> << >>
 
+\* An operation carried by several T-messages binds a new fid with the first one; every later
+\* message names that fid - the file walked to, not the one the operation started from.
+FollowUp(m, v) == [i \in 2..Len(TTypes(m, v)) |-> [msg |-> TTypes(m, v)[i], field |-> "fid", equals |-> "newfid of message 1"]]
+ASSUME \A m \in MethodNames : \A v \in Versions : Len(TTypes(m, v)) > 1 => TTypes(m, v)[1] \in {"Twalk", "Txattrwalk"}
+
 \* The backend operation that must be invoked on the File the handle was derived from
 \* (Rename/Remove arrive on the parent directory's File under the entry's current name).
 BackendOp(m) ==
